@@ -314,4 +314,45 @@ CHECKS = {
         'technique': 'Coq proof (change of variables for integrals, limits of truncated moments) + primitive-stream '
                      'replay + CoqInterval-certified correspondence',
     },
+    'C15': {
+        'text': 'Machine-checked proof (Properties/C15.v, axiom-free) of the labelling and routing: tables of PredictiveModel '
+                '/ PopulationPredictiveModel hold one row per (output, time, sample) at index (o n_t + t) n_s + s with ID '
+                's+1, the t-th sorted time, the o-th output name and the value of exactly that triple; prior / posterior '
+                'predictive tables are sample-major with the analogous index formula; patients of a population predictive '
+                'model are the population model\'s own transform of the draws; every row of a posterior predictive pool is '
+                'one joint (chain, draw) and every (chain, draw) occurs once; IDs of an averaged model are shifted past the '
+                'models before. Tied to /repo on every run with recording doubles: tables of all five predictive models '
+                'compared exactly (vm_compute) with the model on tagged values; directly: every value is the tagged output '
+                'of the sample / time / observable its row names (unsorted time vectors), patients equal the independent '
+                'transform of draws replayed from the seed\'s primitive stream (non-centred, covariate-shifted, pooled; '
+                'n_samples different from the stored n_ids), covariate rows, one complete prior draw per ID, joint '
+                'posterior draws of the selected individual with mixed individual- and population-level variables, '
+                'averaged-model frequencies within 5 sigma of the weights and IDs 1..n.',
+        'note': 'Partial: the laws of the draws are C06 and the streams C16; that a table value is "distributed as the '
+                'error model around the mechanistic output" is reduced to the error model\'s sample being called with that '
+                'output and those parameters (recorded), not proved as a distributional statement. Heterogeneous '
+                'sub-models in PopulationPredictiveModel and dose-event rows are not covered. Two fix: commits.',
+        'technique': 'Coq proof (index arithmetic of nested tables, joint rows) + exact vm_compute correspondence on '
+                     'tagged values + recorded parameter flow',
+    },
+    'C16': {
+        'text': 'Machine-checked proof (Properties/C16.v, axiom-free) about which stream positions a call reads when one '
+                'generator is made from the seed and handed to the sub-samplers in turn: all positions read within a '
+                'call are pairwise distinct (different outputs, times, individuals, samples never share a variate); an '
+                'integer seed alone determines them; a generator passed as seed ends past everything read and a second '
+                'call reads disjoint positions; restarting the stream per sub-sampler (the defect repaired earlier) makes '
+                'blocks overlap. Tied to /repo on every run for every sampling entry point (error, population, predictive, '
+                'population / prior / posterior / averaged predictive models, sample_initial_parameters of three posterior '
+                'classes): bit-identical results for equal seeds on the same object, on a fresh object, after other '
+                'arguments were used on it, with disturbed global generators, with NumPy-integer seeds; different seeds '
+                'differ; Generator seeds are advanced and end where the replayed plan ends; PredictiveModel results equal '
+                'the plan on consecutive blocks of the primitive stream (block structure compared with the model by '
+                'vm_compute); noise across outputs / times / samples is not shared and uncorrelated.',
+        'note': 'Partial: that distinct positions of a NumPy stream and streams of distinct seeds are independent is '
+                'NumPy\'s contract (assumed); independence is checked statistically (|r| < 6/sqrt(N)), not proved. Trusted: '
+                'Coq kernel, stdlib (no axioms); the plan of PopulationPredictiveModel and of the pints priors is checked '
+                'for determinism only.',
+        'technique': 'Coq proof (disjointness of consecutively consumed stream blocks) + primitive-stream replay + '
+                     'determinism / advancement checks on every entry point',
+    },
 }
